@@ -299,6 +299,10 @@ Inductive op :=
 | SSub (r r' : N)
 | SFormat (r : N) (style : N)
 | SSerde (r r' : N)
+| OCloneFrom (r r' : N)        (* Clone::clone_from: the library default is *self = source.clone() *)
+| SCloneFrom (r r' : N)
+| ODefault (r : N)             (* *reg = Default::default() *)
+| SDefault (r : N)
 | OIterNth (r : N) (kind : N) (pre nk : nat)
 | ODrainNth (r : N) (pre nk : nat)
 | OIntoNth (r : N) (kind : N) (pre nk : nat)
@@ -898,6 +902,16 @@ Definition step (o : op) (x : xworld) : list N * xworld :=
       let src := get_s r x in
       run_s r' (replace_with Es (finally_drop Es (visit_seq (List.map fst (elems src))))
                              [nn (len src); nn (length (elems src))]) x
+  | OCloneFrom r r' =>
+      if Nat.eqb (cap (get_m r x)) (cap (get_m r' x)) then
+        run_m r' (replace_with Em (clone_from_src Em (get_m r x)) []) x
+      else ([9%N], x)
+  | SCloneFrom r r' =>
+      if Nat.eqb (cap (get_s r x)) (cap (get_s r' x)) then
+        run_s r' (replace_with Es (clone_from_src Es (get_s r x)) []) x
+      else ([9%N], x)
+  | ODefault r => run_m r (replace_with Em (ret tt) []) x
+  | SDefault r => run_s r (replace_with Es (ret tt) []) x
   | OIterNth r kind pre nk => run_m r (iter_nth_session (r_item kind) pre nk) x
   | ODrainNth r pre nk => run_m r (drain_nth_session Em r_pair pre nk) x
   | OIntoNth r kind pre nk =>
@@ -995,6 +1009,10 @@ Definition decode (l : list N) : op :=
   | 62%N :: r :: arr :: n :: t => if q_ok r then OFromIter r (N.eqb arr 1) (dec_items (nat_of n) t) else OBad
   | [64; r; style]%N => if q_ok r then OFormat r style else OBad
   | [66; r; r']%N => if q_ok r && q_ok r' then OSerde r r' else OBad
+  | [67; r; r']%N => if q_ok r && q_ok r' then OCloneFrom r r' else OBad
+  | [167; r; r']%N => if s_ok r && s_ok r' then SCloneFrom r r' else OBad
+  | [68; r]%N => if q_ok r then ODefault r else OBad
+  | [168; r]%N => if s_ok r then SDefault r else OBad
   | [42; r; kind; pre; nk]%N => if q_ok r then OIterNth r kind (nat_of pre) (nat_of nk) else OBad
   | [43; r; pre; nk]%N => if q_ok r then ODrainNth r (nat_of pre) (nat_of nk) else OBad
   | [44; r; kind; pre; nk]%N => if q_ok r then OIntoNth r kind (nat_of pre) (nat_of nk) else OBad
